@@ -580,3 +580,23 @@ silent("c02-s-pushdown-guard-plain", "C02", CNF,
        "    if (\n        red_op is not ops.null\n        and bin_op is not ops.null\n        and (red_op, bin_op) not in DISTRIBUTIVE_OPS\n    ):\n        return None\n",
        "    if (red_op, bin_op) not in DISTRIBUTIVE_OPS:\n        return None\n")
 rename("C02", CNF, "eager_contraction_generic_recursive")
+
+fire("c02-same-op-restricts-vars", "C02", CNF,
+     "        new_terms = tuple(v.reduce(red_op, reduced_vars) for v in terms)", "        new_terms = tuple(v.reduce(red_op, reduced_vars & v.input_vars) for v in terms)",
+     "R02.7", "normalize_contraction_generic_tuple")
+silent("c02-s-same-op-loop-form", "C02", CNF,
+       "        new_terms = tuple(v.reduce(red_op, reduced_vars) for v in terms)",
+       "        reduced = []\n        for v in terms:\n            reduced.append(v.reduce(red_op, reduced_vars))\n        new_terms = tuple(reduced)")
+fire("c02-constant-count-over-all-vars", "C02", "funsor/constant.py",
+     "        size = reduce(ops.mul, (var.output.size for var in reduced_const_vars))", "        size = reduce(ops.mul, (var.output.size for var in reduced_vars))",
+     "R02.4", "eager_reduce_add")
+fire("c03-memoize-cache-or-empty", "C03", INTERP,
+     "        if cache is None:\n            cache = {}\n        else:\n            assert isinstance(cache, dict)\n        self.cache = cache",
+     "        assert cache is None or isinstance(cache, dict)\n        self.cache = cache or {}", "R03.3", "Memoize.__init__")
+fire("c03-memoize-cache-if-not", "C03", INTERP,
+     "        if cache is None:\n            cache = {}\n        else:", "        if not cache:\n            cache = {}\n        else:", "R03.3", "Memoize.__init__")
+silent("c03-s-memoize-cache-ifexp-none", "C03", INTERP,
+       "        if cache is None:\n            cache = {}\n        else:\n            assert isinstance(cache, dict)\n        self.cache = cache",
+       "        assert cache is None or isinstance(cache, dict)\n        self.cache = {} if cache is None else cache")
+rename("C03", INTERP, "Memoize.__init__")
+rename("C02", "funsor/constant.py", "eager_reduce_add")
